@@ -221,11 +221,16 @@ Proof.
     destruct (ev fu e1); cbn [bind]; auto. destruct (ev fu e2_1); cbn [bind]; auto.
     destruct (ev fu e2_2); cbn [bind]; auto.
   - (* RSymbol *)
-    destruct (index_of syms e 0) as [i |].
-    + inversion Hc; subst. cbn [run]. reflexivity.
-    + pose proof (Henv e) as He. destruct (assoc cmap e) as [idx |]; try discriminate.
-      destruct (idx <? bufsz)%nat eqn:Elt; try discriminate. inversion Hc; subst. cbn [run].
-      apply Nat.ltb_lt in Elt. destruct (He Elt) as [v [Hv1 Hv2]]. rewrite Hv1, Hv2. reflexivity.
+    pose proof (Henv e) as He. destruct map_first.
+    + destruct (assoc cmap e) as [idx |] eqn:Ea.
+      * destruct (idx <? bufsz)%nat eqn:Elt; try discriminate. inversion Hc; subst. cbn [run].
+        apply Nat.ltb_lt in Elt. destruct (He Elt) as [v [Hv1 Hv2]]. rewrite Hv1, Hv2. reflexivity.
+      * rewrite He. destruct (index_of syms e 0) as [i |]; [ inversion Hc; subst; reflexivity | discriminate ].
+    + destruct (index_of syms e 0) as [i |].
+      * inversion Hc; subst. cbn [run]. reflexivity.
+      * destruct (assoc cmap e) as [idx |]; try discriminate.
+        destruct (idx <? bufsz)%nat eqn:Elt; try discriminate. inversion Hc; subst. cbn [run].
+        apply Nat.ltb_lt in Elt. destruct (He Elt) as [v [Hv1 Hv2]]. rewrite Hv1, Hv2. reflexivity.
   - (* RInfty *)
     destruct e; try discriminate. destruct n; try discriminate.
     destruct (dir <? 0)%Z; [ inversion Hc; reflexivity | ].
